@@ -972,7 +972,7 @@ def c09_r2(ctx: Ctx, rule):
         raise AnalysisError("add_record: expected one call to new_record")
     c = calls[0]
     args = [norm(a) for a in c.args] + [norm(k.value) for k in c.keywords]
-    need = {"type": lambda a: a in ("%s.get_type()" % rec, "%s._prov_type" % rec),
+    need = {"type": lambda a: a in ("%s.get_type()" % rec, "%s.%s" % (rec, ctx.type_field())),
             "identifier": lambda a: a in ("%s.identifier" % rec, "%s._identifier" % rec),
             "formal attributes": lambda a: a in ("%s.formal_attributes" % rec, "%s.attributes" % rec),
             "extra attributes": lambda a: a in ("%s.extra_attributes" % rec, "%s.attributes" % rec)}
@@ -1164,3 +1164,94 @@ def c16_r9(ctx: Ctx, rule):
 
 RULES.setdefault("C16", []).append(Rule("C16.R9", "serialising is repeatable: the text exporters leave the document as it was (C13.R1 restricted to serialize / get_provn)", 6, c16_r9, "F-OWN",
                                         "the string returned by one serialize() call and the text a second call writes to a stream or a path are the same"))
+
+
+# ===================================================================================== C12.R8 state shared through the class or a default argument
+MUTABLE_LITERAL_CALLS = {"list", "dict", "set", "defaultdict", "OrderedDict", "deque", "Counter", "bytearray"}
+
+
+def _is_mutable_literal(e):
+    if isinstance(e, (ast.List, ast.Dict, ast.Set, ast.ListComp, ast.DictComp, ast.SetComp)):
+        return True
+    return isinstance(e, ast.Call) and call_name(e) in MUTABLE_LITERAL_CALLS
+
+
+def _escaping_uses(fnode, name):
+    """Uses of a parameter that make a mutable default observable across calls: mutation, storing into an attribute / container, returning."""
+    out = []
+    for n in walk_function(fnode):
+        if isinstance(n, ast.Call) and isinstance(n.func, ast.Attribute) and isinstance(n.func.value, ast.Name) and n.func.value.id == name and n.func.attr in MUTATORS_LOCAL:
+            out.append(n)
+        elif isinstance(n, (ast.Assign, ast.AugAssign)):
+            tg = n.targets if isinstance(n, ast.Assign) else [n.target]
+            if any(isinstance(t, ast.Subscript) and isinstance(t.value, ast.Name) and t.value.id == name for t in tg):
+                out.append(n)
+            if isinstance(n, ast.Assign) and isinstance(n.value, ast.Name) and n.value.id == name and any(isinstance(t, (ast.Attribute, ast.Subscript)) for t in tg):
+                out.append(n)
+            if isinstance(n, ast.AugAssign) and isinstance(n.target, ast.Name) and n.target.id == name:
+                out.append(n)
+        elif isinstance(n, ast.Return) and isinstance(n.value, ast.Name) and n.value.id == name:
+            out.append(n)
+    return out
+
+
+MUTATORS_LOCAL = {"append", "extend", "insert", "add", "update", "setdefault", "pop", "popitem", "remove", "discard", "clear", "sort", "reverse", "appendleft"}
+
+
+def c12_r8(ctx: Ctx, rule):
+    res = RuleResult()
+    # matcher self-check on a built-in positive example
+    probe = ast.parse("class K:\n    table = {}\n    def f(self, xs=[], ys=None, zs=()):\n        xs.append(1)\n        self.table[1] = 2\n        return xs\n")
+    pf = probe.body[0].body[1]
+    if not (_is_mutable_literal(pf.args.defaults[0]) and not _is_mutable_literal(pf.args.defaults[2]) and len(_escaping_uses(pf, "xs")) == 2):
+        raise AnalysisError("mutable-default matcher self-check failed")
+    res.ob("matcher self-check: the built-in example's mutable default and its 2 escaping uses are recognised")
+    n_params = n_attrs = 0
+    for q, fi in ctx.p.functions.items():
+        if isinstance(fi.node, ast.Lambda) or fi.module.startswith("scripts.") or ".tests" in fi.module:
+            continue
+        a = fi.node.args
+        pos = a.posonlyargs + a.args
+        pairs = list(zip(pos[len(pos) - len(a.defaults):], a.defaults)) + [(k, d) for k, d in zip(a.kwonlyargs, a.kw_defaults) if d is not None]
+        for arg, d in pairs:
+            n_params += 1
+            if not _is_mutable_literal(d):
+                continue
+            uses = _escaping_uses(fi.node, arg.arg)
+            res.ob("%s: parameter %s defaults to a mutable object (%s); mutated, stored or returned: %s" % (short(q) if q.count(".") > 2 else q, arg.arg, norm(d), bool(uses)))
+            if uses:
+                res.fail(rule.id, "mutable-default::%s::%s" % (q, arg.arg), ctx.loc(q, uses[0]),
+                         "%s keeps or changes its default `%s=%s` (%s): every call that omits the argument shares one object" % (short(q) if q.count(".") > 2 else q, arg.arg, norm(d), norm(uses[0])[:40]),
+                         "two documents built without that argument share the container: adding to one shows up in the other")
+    res.ob("parameters with defaults examined: %d" % n_params)
+    for cq, ci in ctx.p.classes.items():
+        if ci.module.startswith("scripts.") or ".tests" in ci.module:
+            continue
+        for name, val in ci.class_attrs.items():
+            if not _is_mutable_literal(val):
+                continue
+            n_attrs += 1
+            # mutated through an instance without being rebound per instance in __init__
+            init = ci.methods.get("__init__")
+            rebound = bool(init) and any(isinstance(n, ast.Assign) and any(isinstance(t, ast.Attribute) and norm(t.value) == "self" and t.attr == name for t in n.targets) for n in walk_function(ctx.fn(init).node))
+            muts = []
+            for mq in ci.methods.values():
+                for n in walk_function(ctx.fn(mq).node):
+                    if isinstance(n, ast.Call) and isinstance(n.func, ast.Attribute) and n.func.attr in MUTATORS_LOCAL and norm(n.func.value) in ("self." + name, "cls." + name, cq.rsplit(".", 1)[1] + "." + name):
+                        muts.append((mq, n))
+                    if isinstance(n, (ast.Assign, ast.AugAssign)):
+                        for t in (n.targets if isinstance(n, ast.Assign) else [n.target]):
+                            if isinstance(t, ast.Subscript) and norm(t.value) in ("self." + name, "cls." + name):
+                                muts.append((mq, n))
+            res.ob("%s.%s is a class-level mutable object; rebound per instance: %s; mutated through instances: %d" % (cq.rsplit(".", 1)[1], name, rebound, len(muts)))
+            if muts and not rebound:
+                mq, n = muts[0]
+                res.fail(rule.id, "class-level-state::%s.%s" % (cq, name), ctx.loc(mq, n),
+                         "%s.%s is created once for the class and %s changes it through an instance (%s)" % (cq.rsplit(".", 1)[1], name, short(mq), norm(n)[:40]),
+                         "all documents share that table: a prefix renamed in one manager resolves in every other manager")
+    res.ob("class-level mutable attributes in the package: %d" % n_attrs, nontrivial=False)
+    return res
+
+
+RULES.setdefault("C12", []).append(Rule("C12.R8", "no state shared through a class-level container or a mutable default argument", 3, c12_r8, "F-OWN",
+                                        "independent documents, managers and records never meet in an object created at import time"))
